@@ -1,4 +1,5 @@
 CONSTANT DevSet <- NoDevs
+CONSTANT Collect = TRUE
 INIT Init
 NEXT Next
 POSTCONDITION Accepted
